@@ -127,7 +127,7 @@ func runC09(c *Ctx) {
 		}
 		var outer *RangeLoop
 		for _, x := range RangeLoops(pr) {
-			if x != rl && x.Header.Dominates(rl.Header) {
+			if x.Header != rl.Header && x.Body.Dominates(rl.Header) && (outer == nil || outer.Body.Dominates(x.Header)) {
 				outer = x
 			}
 		}
